@@ -31,6 +31,7 @@ else
 fi
 $CC $LANGF $COMMON $TS $DEFS $INC $SEMREN -c $REPO/platform/linux/src/nsync_semaphore_futex.c -o $OUT/sem_futex.o & pids+=($!)
 $CC $LANGF $COMMON $TS $DEFS $INC -c $V/sim/platform/src/sim_platform.c -o $OUT/sim_platform.o & pids+=($!)
+$CC $LANGF $COMMON $DEFS $INC -c $V/sim/platform/src/sim_peek.c -o $OUT/sim_peek.o & pids+=($!)
 # the interpreter: NOT tsan-instrumented
 $CC $LANGF $COMMON $DEFS $INC -Wall -Wno-unused-function -Werror=implicit-function-declaration -c $V/sim/interp/interp.c -o $OUT/interp.o & pids+=($!)
 rc=0
